@@ -107,6 +107,7 @@ def install():
         _signal, signal=lambda *a: None, getsignal=lambda *a: _signal.SIG_DFL,
         siginterrupt=lambda *a: None)
     circus.watcher.randint = _randint
+    circus.controller.os = fakezmq.ModuleProxy(os, chown=lambda *a, **k: None)
     for name in ('circus', 'tornado.application', 'tornado.general', 'asyncio'):
         lg = logging.getLogger(name)
         lg.handlers[:] = [LOGCAP]
@@ -170,7 +171,7 @@ class WSpec(object):
 class World(object):
 
     def __init__(self, chooser, specs=(), arbiter_kw=None, check_delay=1.0,
-                 config_file=None, sockets=None):
+                 config_file=None, sockets=None, endpoint='tcp://127.0.0.1:5555'):
         global CURRENT
         install()
         self.ex = chooser
@@ -198,6 +199,7 @@ class World(object):
         self.check_delay = check_delay
         self.config_file = config_file
         self.sockets = sockets
+        self.endpoint = endpoint
         self.hook_calls = []         # (t, watcher, hook_name, outcome)
         self.steps = 0
         self.max_steps = 20000
@@ -237,7 +239,7 @@ class World(object):
             self.arbiter = Arbiter.load_from_config(self.config_file, loop=self.ioloop)
         else:
             watchers = [Watcher(s.name, s.cmd, loop=self.ioloop, **s.opts) for s in self.spec_list]
-            self.arbiter = Arbiter(watchers, 'tcp://127.0.0.1:5555', 'tcp://127.0.0.1:5556',
+            self.arbiter = Arbiter(watchers, self.endpoint, 'tcp://127.0.0.1:5556',
                                    check_delay=self.check_delay, context=self.ctx,
                                    loop=self.ioloop, sockets=self.sockets, **self.arbiter_kw)
         return self.arbiter
